@@ -22,6 +22,7 @@ import CtyModel.Lemmas.d06Access
 import CtyModel.Lemmas.d06Gocty
 import CtyModel.Lemmas.d06WalkSets
 import CtyModel.Lemmas.d06Stdlib
+import CtyModel.Lemmas.d06WFStrict
 import Lean
 namespace CtyModel
 namespace C06
@@ -351,6 +352,13 @@ theorem wfImpliesDuplicateFree_false : ¬ WFImpliesDuplicateFree := by
   have := h (D06.cidOf [1, 1]) ⟨.set (.capsule 1), .sset [5, 5] [.caps, .caps]⟩ (by decide)
   revert this
   decide
+
+/-- … and TRUE where no capsule type is involved: for a value whose type mentions no capsule type, `WF` implies the
+strict predicate, whatever the oracle — `Equals` evaluates on every pair of members of every well-formed set
+(`equals_total`), nested sets included.  So every `wf_…` theorem of this file is a theorem about `WFc` for capsule-free
+result types; the wrong-reason pass was confined to capsule-bearing element types. -/
+theorem wfImpliesDuplicateFree_partial (cid : Nat → Nat) {v : Value} (hv : v.WF nfc = true)
+    (hc : Ty.hasCapsule v.ty = false) : v.WFc cid nfc = true := D06.WFc_of_WF_noCaps cid hv hc
 
 /-- the strict predicate implies the one all the `wf_…` theorems are about -/
 theorem wfc_implies_wf {cid : Nat → Nat} {v : Value} (h : v.WFc cid nfc = true) : v.WF nfc = true :=
